@@ -9,6 +9,7 @@ import (
 	"encoding/hex"
 	"fmt"
 	"hash"
+	"runtime"
 	"sort"
 	"sync"
 	"sync/atomic"
@@ -299,6 +300,10 @@ func SelectOrder(site string, n int) []int {
 	if w == nil {
 		return nil
 	}
+	// every rewritten select is a yield point: a loop that spins through selects without ever blocking (the sender
+	// after its run scope was cancelled, until the closer's helper goroutine has marked it closed) would otherwise
+	// last until the runtime's wall-clock preemption, i.e. a non-replayable number of iterations
+	runtime.Gosched()
 	order := make([]int, n)
 	for i := range order {
 		order[i] = i
@@ -322,6 +327,7 @@ func SelectOrderPinned(site string, n int) []int {
 	if Cur() == nil {
 		return nil
 	}
+	runtime.Gosched()
 	order := make([]int, n)
 	for i := range order {
 		order[i] = i
